@@ -159,7 +159,12 @@ APPEND = {
     ("C17_run_tls_count", "run_tls_count", "EXACT: in every run, the number of initialisations of key k logged for body b equals the number of threads of body b that have k initialised"),
     ("C17_tls_init_once", "tls_init_once", "hence at most one initialisation per thread and key (threads identified by body: the side condition says no body is spawned twice)"),
     ("C17_run_tls_nodup", "run_tls_nodup", "a thread's set of initialised keys has no duplicates"),
-    ("C17_lazy_init_once", "lazy_init_once", "a lazy static is initialised at most once per execution, in every run of every program"),
+    ("C17_lazy_registered_once", "lazy_registered_once", "a lazy static is REGISTERED at most once per execution, in every run of every program: all threads get the same instance"),
+    ("C17_lazy_init_once", "lazy_init_once", "its initialiser runs at most once per execution -- for the statics whose initialiser has no scheduling point (every key but 2)"),
+    ("C17_run_lazy_balance", "run_lazy_balance", "for every key: initialiser runs = [registered] + values dropped at once + initialisations in flight"),
+    ("C17_run_lazy_all_dropped", "run_lazy_all_dropped", "at the end of a finished iteration every value an initialiser built has been dropped"),
+    ("C17_lazyY_handover_global", "lazyY_handover_global", "the winner's registration happens-before every later read, also the loser's"),
+    ("C17_lazy_yielding_init_runs_twice", "lazy_yielding_init_runs_twice", "computed (listed finding D22): with a yielding initialiser both racing threads run it; one value is registered, the other dropped at once, both threads read the same value"),
     ("C17_lazy_none_stays", "lazy_none_stays", "after the shutdown at main's exit the registry stays shut under every micro-step"),
     ("C17_lazy_get_after_shutdown", "lazy_get_after_shutdown", "and every later access fails with loom's shutdown panic"),
     ("C17_lazy_get_acquires", "lazy_get_acquires", "an access to a registered lazy static acquires the view registered by its initialiser"),
